@@ -43,8 +43,11 @@ def run(ctx):
 
     def gen_p(tier, rng):
         return [c for c in fd.gen_pressure(tier, rng) if pres.in_domain(c)]
+    import crosscut as cc
     out = adapters.simple_run(
         ctx, [(dens, fd.gen_density), (pres, gen_p)],
+        blocks=(lambda ad, cs, tier, rng: cc.carrier_block(ad, cs, tier, rng) if ad.name == "density_inversion_test" else None,
+                lambda ad, cs, tier, rng: cc.reuse_block(ad, cs, tier, rng) if ad.name == "density_inversion_test" else None),
         rule="density: all profiles n<=4 (thorough 5) over depths {1,2,3,missing} (down, up, down-up, stationary, repeated) x "
              "densities {0,1,2,missing} x 12 threshold pairs (differences exactly on thresholds, one or both absent), random "
              "longer profiles, shape mismatch; pressure: all series n<=5 over {0,1,2,3} plus random; reversal relation on "
